@@ -35,6 +35,7 @@ func init() {
 			{ID: "C18-R14", Title: "the stack pointer is advanced only after the slot was written (it always indexes the array)", Floor: 1, Run: spStaysInRange},
 			{ID: "C18-R15", Title: "a failure kept in the compiler is cleared before compiling", Floor: 1, Run: stickyFailureClearedBeforeCompiling},
 			{ID: "C18-R16", Title: "clones share the code wrappers by pointer", Floor: 1, Run: clonesShareCodeWrappers},
+			{ID: "C18-R17", Title: "global slots are never Go nil", Floor: 1, Run: globalSlotsAreNeverGoNil},
 		},
 	})
 }
